@@ -167,7 +167,7 @@ def managed_protocol(repo):
                 # depend on the state of the std::thread handle, which the owner changes in join / detach / move
                 calls = {x.get('name') for x in _walk(n) if x.get('kind') == 'MemberExpr'
                          and 'bound member' in _qual(x) and x.get('name') not in (None, 'load')}
-                logic = any(x.get('kind') == 'BinaryOperator' and x.get('opcode') in ('&&', '||', '&', '|', '==', '!=')
+                logic = any(x.get('kind') == 'BinaryOperator' and x.get('opcode') in ('&&', '||', '&', '|')
                             for x in _walk(n)) or \
                     any(x.get('kind') == 'UnaryOperator' and x.get('opcode') == '!' for x in _walk(n))
                 if len(members) != 1 or stores or calls - stores or logic or \
